@@ -74,6 +74,8 @@ def cases(tier):
         for c2 in F.chains(psub2, 1, src_pull_based=True):
             for order in F.orders(["A", "P", "B"], all_orders=not q):
                 cs.append(F.viaP(c1, c2, end=e3 + 1, order=order))
+            if any(t[0] in "AM" for t in c1):
+                continue  # integration adapter on a link that is pulled twice per update: repeated / non-monotone requests are outside C12's premise
             cs.append(F.viaP2(c1, c2, [], end=e3))
             cs.append(F.viaP2(c1, [], c2, end=e3, order=("B", "P", "A")))
             cs.append(F.viaPdup(c1, [], c2, end=e3, order=("B", "P", "A")))
